@@ -250,7 +250,7 @@ PROPS = {
         "design_ref": "DESIGN.md section 5, C13",
     },
     "C15": {
-        "modules": ["Qvnt.Props.C15"],
+        "modules": ["Qvnt.Props.C15", "Qvnt.Props.Code.C15"],
         "tie": [tie2(r"h_(loop|h)_eq|op_h_eq|qft_qft(_swapped)?_eq|op_qft(_swapped)?_eq|swapped_loop_eq|vec_eq", r"UNSUPPORTED (h\.rs|qft\.rs|mod\.rs: operator/mod\.rs::(h|qft|qft_swapped):|rotate\.rs: operator/single/rotate\.rs::rz:|swap\.rs: operator/single/swap\.rs::swap:)")],
         "suites": [suite("dft", dict(count=500, max_n=6), dict(count=6000, max_n=9))],
         "mismatch_tags": None,
